@@ -58,7 +58,21 @@ def planted_case(draw):
     if mean < 9000:
         f = 9000 / mean
         gaps = [int(g * f) + 1 for g in gaps]
-    first = draw(st.integers(0, 30000))
+    # edge mode: windows that begin/end exactly 4 labels from a reference end, with the outer labels only 2-3 kb
+    # apart, so that the secondary-correlation window around the seed reaches beyond the reference start/end
+    edge = draw(st.sampled_from([None, None, "start", "end", "both"]))
+    if edge:
+        small = [2000 + draw(st.integers(0, 900)) + 37 * j for j in range(6)]
+        g2 = list(gaps)
+        if edge in ("start", "both"):
+            g2[:6] = small
+        if edge in ("end", "both"):
+            g2[-6:] = small[::-1]
+        if sum(g2) / len(g2) >= 9000:
+            gaps = g2
+        else:
+            edge = None
+    first = draw(st.one_of(st.integers(0, 3000), st.integers(0, 30000)))
     frac = draw(st.sampled_from([0, 0, 3, 7]))
     labels = [first]
     for g in gaps:
@@ -71,6 +85,8 @@ def planted_case(draw):
     for qid in qids:
         k = draw(st.integers(15, min(45, n - 8)))
         i = draw(st.integers(4, n - 4 - k))
+        if edge and draw(st.booleans()):
+            i = 4 if edge == "start" or (edge == "both" and draw(st.booleans())) else n - 4 - k
         rev = draw(st.booleans())
         win = labels[i:i + k]
         rel = [p - win[0] for p in win]
@@ -79,7 +95,8 @@ def planted_case(draw):
         ql = [r1(p + off) for p in q]
         trailing = draw(st.one_of(st.integers(1, 300), st.integers(1, 300000))) / 10
         queries.append({"id": qid, "labels": ql, "length": r1(ql[-1] + trailing),
-                        "truth": {"kind": "planted", "ref": ref["id"], "i": i, "k": k, "strand": "-" if rev else "+", "offset": off}})
+                        "truth": {"kind": "planted", "ref": ref["id"], "i": i, "k": k, "strand": "-" if rev else "+", "offset": off,
+                                  "at_edge": bool(edge) and i in (4, n - 4 - k)}})
     return {"refs": [ref], "queries": queries, "mode": draw(st.sampled_from(["best", "separate", "joined", "all"])), "args": {}}
 
 
@@ -118,10 +135,12 @@ def check(case):
         cl.append("rev" if t["strand"] == "-" else "fwd")
         if t["offset"]:
             cl.append("offset")
+        if t.get("at_edge"):
+            cl.append("window-4-labels-from-reference-end")
     return {"nontrivial": True, "classes": sorted(set(cl))}
 
 
 def subchecks(tier):
     q = tier == "quick"
     return [Sub("planted", "hyp", check, strategy=planted_case, examples=700 if q else 16000, shrink_budget=40,
-                sample_filter=gen_maps.short_case, required_classes=("rev", "fwd", "offset", "mode=joined", "mode=all"))]
+                sample_filter=gen_maps.short_case, required_classes=("rev", "fwd", "offset", "mode=joined", "mode=all", "window-4-labels-from-reference-end"))]
